@@ -72,13 +72,14 @@ Definition ex_ids : list idsrc :=
   [((150,7),0); ((100,1),0); ((150,8),2); ((300,7),1); ((100,5),1); ((99,5),0); ((120,3),9); ((301,0),0)].
 
 Ltac nodup := repeat (apply NoDup_cons; [simpl; intuition congruence|]); apply NoDup_nil.
+Ltac all64 := repeat (apply Forall_cons; [simpl; unfold id_u64, max64; simpl; lia|]); apply Forall_nil.
 Ltac in_cases H := repeat (destruct H as [H|H]; [inversion H; subst; clear H|]); try contradiction.
 
 Lemma ex_f1_wf : frac_wf max64 ex_f1.
 Proof.
   split; [split|split].
   - simpl. nodup.
-  - repeat constructor; simpl; unfold max64; lia.
+  - all64.
   - simpl; lia.
   - apply info_sound_nodist; [reflexivity|]. intros x b H. apply lookup_docs_in in H. simpl in H.
     in_cases H; simpl; lia.
@@ -87,14 +88,14 @@ Lemma ex_f2_wf : frac_wf max64 ex_f2.
 Proof.
   split; [split|split].
   - simpl. nodup.
-  - repeat constructor; simpl; unfold max64; lia.
+  - all64.
   - simpl; lia.
   - apply info_sound_nodist; [reflexivity|]. intros x b H. apply lookup_docs_in in H. simpl in H.
     in_cases H; simpl; lia.
 Qed.
 Lemma ex_corpus_wf : corpus_wf max64 [ex_f1; ex_f2].
 Proof.
-  split; [repeat constructor; [apply ex_f1_wf|apply ex_f2_wf]|]. split.
+  split; [apply Forall_cons; [apply ex_f1_wf|apply Forall_cons; [apply ex_f2_wf|apply Forall_nil]]|]. split.
   - simpl. nodup.
   - intros f1 f2 x H1 H2 L1 L2.
     assert (forall f, In f [ex_f1; ex_f2] -> lookup f x <> None -> In x (map fst (f_docs f))).
@@ -108,8 +109,8 @@ Lemma ex_req_ok : req_ok max64 ex_ids.
 Proof.
   split; [|split].
   - simpl. nodup.
-  - repeat constructor; simpl; unfold max64; lia.
-  - repeat constructor; simpl; unfold max64; lia.
+  - all64.
+  - all64.
 Qed.
 
 (* the hypotheses of C04_fetch_exact are satisfiable, and the conclusion is what the model computes: present
@@ -125,12 +126,16 @@ Proof.
   vm_compute. reflexivity.
 Qed.
 
+(* fetch_safe is satisfiable: a fetcher that finds nothing, and one that fails on every chunk; an unsafe one
+   (panicking on the empty chunk only) is still safe in the sense of the theorem *)
 Example C04_chunking_nonvacuous :
-  fetch_safe (fetch_docs ex_g (map compile [ex_f1; ex_f2])) /\ 1 <= init_chunk ex_g.
+  fetch_safe (fun ch => FOk (map (fun _ => None) ch)) /\ fetch_safe (fun _ => FErr) /\
+  fetch_safe (fun ch => match ch with [] => FCrash | _ => FOk (map (fun _ => Some (1, 70000)) ch) end) /\
+  1 <= init_chunk ex_g.
 Proof.
-  split; [|simpl; lia]. intros ch Hne. unfold fetch_docs. rewrite fetch_docs_step by exact Hne. cbv zeta.
-  destruct (sort_ids ch) as [[s lo] hi].
-  destruct (fetch_all true ex_g _); split; discriminate.
+  repeat split; try discriminate; try (simpl; lia).
+  - destruct ch; [congruence|discriminate].
+  - destruct ch; [congruence|discriminate].
 Qed.
 
 (* ------------------------------------------------------------------ the code before the repairs *)
@@ -145,8 +150,8 @@ Proof.
   cbv zeta. split; [split; simpl; lia|]. split; [exact ex_corpus_wf|]. split.
   - split; [|split].
     + simpl. nodup.
-    + repeat constructor; simpl; unfold max64; lia.
-    + repeat constructor; simpl; unfold max64; lia.
+    + all64.
+    + all64.
   - split; vm_compute; reflexivity.
 Qed.
 
@@ -181,8 +186,8 @@ Proof.
   cbv zeta. split; [split; simpl; lia|]. split; [exact ex_corpus_wf|]. split.
   - split; [|split].
     + simpl. nodup.
-    + repeat constructor; simpl; unfold max64; lia.
-    + repeat constructor; simpl; unfold max64; lia.
+    + all64.
+    + all64.
   - split; vm_compute; reflexivity.
 Qed.
 
@@ -190,17 +195,20 @@ Example C04_find_lids_v0_refuted : exists g f x, f_sealed f = true /\ docs_wf (f
   find_lids_v0 g (compile f) None 1 [x] = Panic /\ find_lids g (compile f) None 1 [x] = Ok [0].
 Proof. exact find_lids_v0_refuted. Qed.
 
-(* ------------------------------------------------------------------ finding on the code as it is
-   A requested ID whose timestamp is >= 2^63 (MID.Time() = time.UnixMilli(int64(mid)) is then before 1970, index 0
-   of the occupancy map) makes IsIntersecting(minMID, maxMID) ask HasBitsIn(left, 0) with left > 0: a sealed
-   fraction whose occupancy-map window contains its documents is dropped from the candidates and the OTHER,
-   stored IDs of the request come back empty. So info_sound B f fails for B >= 2^63 on such fractions
-   (C04_fetch_exact covers them for B < 2^63 only); without the big ID the document is returned. *)
+(* ------------------------------------------------------------------ finding of this check, repaired by 6d376ea
+   Before the repair a requested ID whose timestamp is >= 2^63 (MID.Time() = time.UnixMilli(int64(mid)) is then
+   before 1970: index 0 of the occupancy map) made IsIntersecting(minMID, maxMID) ask HasBitsIn(left, 0) with
+   left > 0: a sealed fraction whose occupancy-map window contains its documents was dropped from the candidates
+   and the OTHER, stored IDs of the request came back empty: pruning was unsound for request ranges reaching
+   2^63. The repaired index function keeps the fraction and the document is delivered. *)
 Definition ex_fd := mkFrac 1 true 1000000 1090000
   (Some (mkDist 1000000 1700000 60000 [6; 0])) [((1000000,5),(1,10)); ((1090000,7),(2,20))].
-Example C04_info_unsound_above_int64 :
+Example C04_pruning_v0_refuted :
   lookup ex_fd (1000000,5) = Some (1,10) /\
-  intersecting ex_fd 1000000 two63 = false /\
-  stream ex_g [ex_fd] [((1000000,5),0); ((two63,1),0)] = SOk [((1000000,5), None); ((two63,1), None)] /\
-  stream ex_g [ex_fd] [((1000000,5),0); ((two63 - 1,1),0)] = SOk [((1000000,5), Some (1,10)); ((two63 - 1,1), None)].
+  intersecting_v0 ex_fd 1000000 two63 = false /\
+  intersecting_v0 ex_fd 1000000 (two63 - 1) = true /\
+  intersecting ex_fd 1000000 two63 = true /\
+  stream ex_g [ex_fd] [((1000000,5),0); ((two63,1),0)] = SOk [((1000000,5), Some (1,10)); ((two63,1), None)] /\
+  stream ex_g [ex_fd] [((1090000,7),0); ((max64,max64),0); ((0,0),0)]
+    = SOk [((1090000,7), Some (2,20)); ((max64,max64), None); ((0,0), None)].
 Proof. repeat split; vm_compute; reflexivity. Qed.
